@@ -253,26 +253,32 @@ def attach (n : Node) (fs : List Frame) (closed : Option Node) : List Frame × O
 /-- `self.root is None` -/
 def St.noRoot (s : St) : Bool := s.stack.isEmpty && s.closed.isNone
 
-/-- the tree `self.root` points to, still-open elements included -/
+/-- close the open elements from the innermost outwards; `n` is the already finished innermost one -/
+def zipUp : Node → List Frame → Node
+  | n, [] => n
+  | n, f :: fs => zipUp (Frame.close { f with rev := n :: f.rev }) fs
+
+/-- the tree `self.root` points to, still-open elements included (with something open the root is not closed) -/
 def rootOfStack : List Frame → Option Node → Option Node
   | [], closed => closed
-  | f :: fs, closed => let p := attach f.close fs closed; rootOfStack p.1 p.2
-termination_by fs => fs.length
-decreasing_by
-  cases fs <;> simp [attach]
+  | f :: fs, _ => some (zipUp f.close fs)
 
 def St.root (s : St) : Option Node := rootOfStack s.stack s.closed
 
 def truthy (d : Option Str) : Bool := match d with | some s => !s.isEmpty | none => false
+
+/-- the doctype line of `getHTML` (`if self.doctype:` — an empty declaration prints nothing) -/
+def doctypeLine (doctype : Option Str) : Str :=
+  match doctype with
+  | some d => if d.isEmpty then [] else str "<!" ++ d ++ str ">\n"
+  | none => []
 
 /-- `getHTML` of parser and formatter. -/
 def docHTML (doctype : Option Str) (root : Option Node) : Except Err Str :=
   match root with
   | none => .error .noRoot
   | some r =>
-    let dt : Str := match doctype with
-      | some d => if d.isEmpty then [] else str "<!" ++ d ++ str ">\n"
-      | none => []
+    let dt := doctypeLine doctype
     match r with
     | .elem _ n _ sc _ kids => if n = wrapper then .ok (dt ++ (if sc then [] else innerL kids)) else .ok (dt ++ outer r)
     | .text _ s => .ok (dt ++ s)
